@@ -166,11 +166,19 @@ class Sim(object):
             bc = self.boot_call
             bc.func(*bc.args, **bc.kw)
         elif k == 'start':
-            r = self.peering.manual_start()
-            w.out(('ret', 'start', 'EST' if r == 'EST' else bool(r)))
+            # the operator's commands arrive the way they do in the deployed agent: REST view -> yabgp/api/utils.py
+            # (manual_start / manual_stop there call the peering held in the running configuration and map its answer)
+            from yabgp.api import utils as api_utils
+            r = api_utils.manual_start(self.cfg['remote_addr'])
+            w.out(('ret', 'start', 'EST' if (not r.get('status') and 'established' in str(r.get('code'))) else bool(r.get('status'))))
+            if not r.get('status') and str(r.get('code', '')).startswith('failed'):
+                w.out(('reactor-error', 'manual_start'))
         elif k == 'stop':
-            r = self.peering.manual_stop()
-            w.out(('ret', 'stop', bool(r)))
+            from yabgp.api import utils as api_utils
+            r = api_utils.manual_stop(self.cfg['remote_addr'])
+            w.out(('ret', 'stop', bool(r.get('status'))))
+            if not r.get('status') and str(r.get('code', '')).startswith('failed'):
+                w.out(('reactor-error', 'manual_stop'))
         elif k == 'connok':
             w.connect_ok(w.connectors[ev['c']])
         elif k == 'connfail':
